@@ -14,12 +14,19 @@ import fixtures
 from common import b2f, f2b, fl
 
 
-def make_pose(rng):
+def make_pose(rng, reuse=None):
+    """`reuse`: a probe that already went through a registration (it was read, moved, tilted); the next registration of
+    the same object, after choosing another reference element and putting it back on the global frame, must be as exact
+    as the first one"""
     import arim
 
-    numel = int(rng.integers(2, 9))
-    pitch = float(rng.choice([-1, 1]) * rng.uniform(0.3e-3, 1.5e-3))
-    probe = arim.Probe.make_matrix_probe(numel, pitch, 1, np.nan, 5e6)
+    if reuse is not None:
+        probe, numel = reuse, reuse.numelements
+        _ = probe.locations_pcs, probe.orientations_pcs     # what a user (or a previous registration) has looked at
+    else:
+        numel = int(rng.integers(2, 9))
+        pitch = float(rng.choice([-1, 1]) * rng.uniform(0.3e-3, 1.5e-3))
+        probe = arim.Probe.make_matrix_probe(numel, pitch, 1, np.nan, 5e6)
     ref = rng.choice(["first", "last", "mean", "idx"])
     refarg = str(ref) if ref != "idx" else int(rng.integers(0, numel))
     probe.set_reference_element(refarg)
@@ -47,10 +54,16 @@ def run(ctx):
                 "FMC or HMC frames in random timetrace order, garbage on non-pulse-echo timetraces, up to numel-2 dead elements; time windows for the surface detection; "
                 "distinct = distinct pose/frame; non-trivial = at least 3 elements or a dead element")
     lines, meta = [], []
+    last_probe = None
     for _ in range(80 * ctx.scale):
-        probe, numel, theta, standoff, refarg = make_pose(rng)
+        reuse = last_probe if (last_probe is not None and rng.random() < 0.4) else None
+        probe, numel, theta, standoff, refarg = make_pose(rng, reuse)
+        if reuse is not None:
+            ctx.count("same_probe_registered_again")
+            refarg = f"{refarg} (same probe object as the previous registration)"
         d_el = true_distances(probe, theta, standoff)
         if np.any(d_el <= 0):
+            last_probe = None
             continue
         tx, rx = fixtures.pairs(rng, numel, str(rng.choice(["fmc", "hmc"])))
         perm = rng.permutation(len(tx))
@@ -78,6 +91,7 @@ def run(ctx):
         except Exception as e:
             ctx.violate(f"move_probe_over_flat_surface raised {type(e).__name__}: {e}", cj, {"kind": "raises"})
             continue
+        last_probe = fr2.probe
         loc = fr2.probe.locations.coords
         ctx.case(("reg", x0.tobytes(), theta, standoff, tx.tobytes(), dead.tobytes()), numel >= 3 or dead.any(), sample={k: cj[k] for k in ("numel", "theta", "standoff", "reference")})
         ctx.count(f"numel={numel}")
